@@ -169,6 +169,30 @@ def check_series(vals, shape, scale_checks=True):
                 msgs.append("sharpe_ratio(risk-free series) = %r, definition %r for %s (%s)" % (float(got), want[0] / want[1] if want[1] else None, list(vals), shape))
         except Exception as ex:
             msgs.append("sharpe_ratio(risk-free series) raised %r" % (ex,))
+        # the other risk-adjusted ratios with a risk-free level series
+        try:
+            for k in ("sortino_ratio", "calmar_ratio", "martin_ratio"):
+                got = getattr(s, k)(rfs)
+                want = ((ref["cagr"] - rf_cagr), ref[k][1])
+                if not ratio_ok(got, *want):
+                    msgs.append("%s(risk-free series) = %r, definition %r for %s (%s)" % (k, float(got), want[0] / want[1] if want[1] else None, list(vals), shape))
+        except Exception as ex:
+            msgs.append("ratio with a risk-free series raised %r" % (ex,))
+        # tracking error against a benchmark whose index differs from the series' (one extra earlier observation):
+        # returns must be aligned by DATE
+        try:
+            if len(rets) >= 2 and shape in ("daily", "weekend", "month"):
+                bidx = pd.DatetimeIndex([stamps[0] - pd.Timedelta(days=2)] + list(stamps))
+                bvals = [5.0] + list(vals)[::-1]
+                bench2 = pd.Series(bvals, index=bidx, name="bench2")
+                rb2 = [b / a - 1 for a, b in zip(bvals, bvals[1:])][1:]      # benchmark returns on the series' own dates
+                want = math.sqrt(252) * std1([a - b for a, b in zip(rets, rb2)])
+                got = s.tracking_error(bench2)
+                if not eq(got, want):
+                    msgs.append("tracking_error against a benchmark with an extra earlier date = %r, aligned by date it is %r (%s, %s)"
+                                % (float(got), want, list(vals), shape))
+        except Exception as ex:
+            msgs.append("tracking_error (different index) raised %r" % (ex,))
         # tracking error against a benchmark (with a single return its value is undefined and the
         # implementation's behaviour - an exception from squeeze() - is not something the statement settles)
         try:
@@ -214,6 +238,12 @@ def corruptions(vals, stamps):
         st = list(stamps)
         st[i], st[i + 1] = st[i + 1], st[i]
         out.append(("swap@%d" % i, pd.Series(list(vals), index=pd.DatetimeIndex(st))))
+    # DataFrame whose defect sits in the SECOND column only
+    for i in range(n):
+        for bad, tag in ((float("nan"), "nan"), (0.0, "zero"), (-1.0, "negative")):
+            v = list(vals)
+            v[i] = bad
+            out.append(("df-col2-%s@%d" % (tag, i), pd.DataFrame({"a": list(vals), "b": v}, index=idx)))
     out.append(("intindex", pd.Series(list(vals))))
     out.append(("strindex", pd.Series(list(vals), index=[chr(97 + i) for i in range(n)])))
     st = list(stamps)
@@ -237,8 +267,9 @@ def check_corruptions(vals, shape):
                 pass
         n += 1
         try:
-            c.tracking_error(good)
-            msgs.append("tracking_error accepted a series corrupted by %s" % tag)
+            if isinstance(c, pd.Series):
+                c.tracking_error(good)
+                msgs.append("tracking_error accepted a series corrupted by %s" % tag)
         except Exception:
             pass
     return msgs, n
